@@ -172,7 +172,7 @@ public:
 		}
 		return *this;
 	}
-	posit& operator=(long long rhs) noexcept     { return operator=((int)rhs); }
+	posit& operator=(long long rhs) noexcept     { return operator=((int)(rhs > 2 ? 2 : (rhs < -2 ? -2 : rhs))); } // beyond +-maxpos = +-2 saturates; a plain narrowing cast would wrap
 	posit& operator=(float rhs) noexcept         { return float_assign(rhs); }
 	posit& operator=(double rhs) noexcept        { return float_assign(rhs); }
 	posit& operator=(long double rhs) noexcept   { return float_assign(rhs);  }
